@@ -56,6 +56,7 @@ structure D where
   started : Bool := false
   resetHappened : Bool := false
   bad : Bool := false
+  epoll : Bool := false     -- back-end whose reactor::select makes a system call (fails with EBADF on a closed descriptor)
 
 def codeOf : String → Option Code
   | "ok" => some .ok | "canceled" => some .canceled | "selfail" => some .selectFailed
@@ -113,7 +114,7 @@ def doOp (d : D) : SOp → D
     | some slot => { d with st := opStep d.st (.cancelTimer slot),
                             tobjs := d.tobjs.set k { (d.tobjs.getD k {}) with eventId := none } }
     | none => d
-  | .arm f e p => noteIssue { d with st := opStep d.st (.setIo (sockFd d f) e true) } d.st.next p none
+  | .arm f e p => noteIssue { d with st := opStep d.st (.setIo (sockFd d f) e true .sysErr) } d.st.next p none
   | .ca f => { d with st := opStep d.st (.cancelIo (sockFd d (some f))) }
   | .cl f =>
     -- basic_io_device::close(): cancel(), then close the descriptor, fd_ = invalid_socket
@@ -133,7 +134,12 @@ def settle : Nat → D → D
     | .idle | .draining => settle fuel { d with st := loopStep d.st { now := d.now } }
     | .executing =>
       let item := d.st.running
-      let d := { d with st := loopStep d.st { now := d.now, selOk := true } }
+      -- environment: a queued setter whose descriptor was closed meanwhile: epoll_ctl fails with EBADF,
+      -- the poll/select reactors only update their tables
+      let selOk := match item with
+        | some (.setter (some fd) _ _) => !(d.epoll && !(d.socks.getD fd {}).isOpen)
+        | _ => true
+      let d := { d with st := loopStep d.st { now := d.now, selOk := selOk, selErr := .badf } }
       match item with
       | some (.fn t) | some (.ev t _ _) =>
         let d := { d with execAt := d.execAt ++ [d.now] }
@@ -205,7 +211,7 @@ def render (d : D) : String :=
   let ph := if !d.started then "notrunning" else phaseStr d.st.phase
   s!"log {" ".intercalate logs} | alive {" ".intercalate ((sortNat (aliveToks d.st)).map toString)} | kinds {" ".intercalate kinds} | phase {ph} | lost {d.st.lost.length}"
 
-def runLoopCase (ws : List String) : String :=
+def runLoopCase (epoll : Bool) (ws : List String) : String :=
   match ws with
   | ns :: nt :: rest =>
     match ns.toNat?, nt.toNat? with
@@ -216,7 +222,7 @@ def runLoopCase (ws : List String) : String :=
         match w.splitOn "=" with
         | [_, body] => if body == "-" then [] else (body.splitOn ",").map parseSOp
         | _ => [SOp.bad]
-      let d : D := { progs := progs, socks := List.replicate ns {}, tobjs := List.replicate nt {} }
+      let d : D := { epoll := epoll, progs := progs, socks := List.replicate ns {}, tobjs := List.replicate nt {} }
       render ((script.map parseSOp).foldl topOp d)
     | _, _ => "bad-op"
   | _ => "bad-op"
@@ -302,9 +308,9 @@ def judgePool (ws : List String) : String :=
     boolStr ((os.filterMap id).all (Spec.jobOK (kept == "1")))
   | _ => "bad-op"
 
-def stepLine (_ : Unit) (line : String) : Unit × String :=
+def stepLine (epoll : Bool) (_ : Unit) (line : String) : Unit × String :=
   let r := match words line with
-    | "L" :: rest => runLoopCase rest
+    | "L" :: rest => runLoopCase epoll rest
     | "K" :: rest => runPoolCase rest
     | "J" :: rest => judgeLoop rest
     | "JK" :: rest => judgePool rest
@@ -312,4 +318,4 @@ def stepLine (_ : Unit) (line : String) : Unit × String :=
     | _ => "bad-op"
   ((), r)
 
-def main : IO Unit := lineLoop () stepLine
+def main (args : List String) : IO Unit := lineLoop () (stepLine (args.head? == some "epoll"))
